@@ -639,8 +639,16 @@ def structural_cases(ck: Check, n: int, have_driver: bool):
         # --- ExtendBlockSizePass
         if w >= 2:
             for m in sorted({2, min(3, w), None}, key=repr):
+                dm, coup = None, 'all-to-all'
+                if i % 2 and w >= 3:
+                    # a sparse machine: neighbours come from the line coupling
+                    from bqskit.compiler.machine import MachineModel
+                    dm = PassData(c)
+                    dm.model = MachineModel(
+                        w, [(q, q + 1) for q in range(w - 1)])
+                    coup = 'line'
                 out, _ = run('ExtendBlockSizePass', P.ExtendBlockSizePass(m),
-                             (m,), c)
+                             (m, coup), c, dm)
                 if out is not None:
                     same_timelines('ExtendBlockSizePass', (m,), c, out)
                     mm = 2 if m is None else m
@@ -1260,8 +1268,9 @@ def numerical_cases(ck: Check, thorough: bool):
                                        'maps')},
                 found_input=True)
     ck.coverage['slowest_numerical_case_s'] = round(slow, 2)
-    ck.sample({k: results[0].get(k) for k in ('kind', 'seed', 'args',
-                                              'dist', 'ops')})
+    for r in results[:4]:
+        ck.sample({k: r.get(k) for k in ('kind', 'seed', 'args', 'dist',
+                                         'ops', 'circuit')})
 
 
 # ==========================================================================
@@ -1555,6 +1564,9 @@ def run(ck: Check, replaying: bool = False):
         tie_gates(ck)
         tie_ops(ck, 40 * mult)
     mark('ties')
+    for r in rules[:2]:
+        ck.sample({'generated_rule': r['name'], 'source': r['src_py'],
+                   'ops': [list(map(str, o)) for o in r['ops']]})
     check_fixed_rules(ck, rules, have_driver)
     check_param_rules(ck, rules, have_driver, 24 * mult)
     rule_pass_cases(ck, rules, 30 * mult)
